@@ -251,17 +251,17 @@ deriving Repr
 def choosePadding (maxPaddingLen : Int) (pad : Bool) (rand : Nat) : Int :=
   if maxPaddingLen > 0 ∧ pad then 1 + ((rand % maxPaddingLen.toNat : Nat) : Int) else 0
 
-/-- `ShadowPacketClientPacker.PackInPlace`. `eih` = (identity cipher key, PSK hash) per identity header. -/
-def ssClientPack (c : Crypto) (userBlock aeadKey : Bytes) (eih : List (Bytes × Bytes)) (maxPacketSize : Int)
-    (pol : Policy) (b : Bytes) (a : Addr) (payloadStart payloadLen : Nat) (rand : Nat) (ts sid pid : Bytes) :
-    Outcome Packed :=
-  if a.domTooLong then .panic else
+/-- `UDPSeparateHeaderPackerCipher`: the separate header is encrypted with the first identity cipher if there is one -/
+def ssBlock (userBlock : Bytes) (eih : List (Bytes × Bytes)) : Bytes :=
+  match eih with
+  | kh :: _ => kh.1
+  | [] => userBlock
+
+/-- `ShadowPacketClientPacker.PackInPlace` after the padding length is chosen -/
+def ssClientPackWith (c : Crypto) (userBlock aeadKey : Bytes) (eih : List (Bytes × Bytes)) (b : Bytes) (a : Addr)
+    (payloadStart payloadLen : Nat) (pad : Int) (ts sid pid : Bytes) : Outcome Packed :=
   let nonAEAD : Int := (UDPSeparateHeaderLength : Int) + (IdentityHeaderLength : Int) * eih.length
   let alen := addrLen a
-  let hnp := cHeaderNoPaddingLen nonAEAD alen
-  let maxPad := cMaxPaddingLen maxPacketSize hnp payloadStart payloadLen 16
-  if maxPad < 0 then .err .tooBig else
-  let pad := choosePadding maxPad (shouldPad pol a.port) rand
   let mhs := cMessageHeaderStart payloadStart alen pad
   -- PutUDPClientMessageHeader(b[messageHeaderStart:payloadStart], …)
   if ¬ sliceOk b mhs payloadStart then .panic else
@@ -278,21 +278,26 @@ def ssClientPack (c : Crypto) (userBlock aeadKey : Bytes) (eih : List (Bytes × 
   let ids := eih.map (fun kh => c.enc kh.1 (xorBytes kh.2 sep))
   -- p.aead.Seal(plaintext[:0], nonce, plaintext, nil): in place only with 16 bytes of capacity behind
   if (payloadStart : Int) + payloadLen + 16 > b.length then .noRoom else
-  let block := match eih with
-    | kh :: _ => kh.1
-    | [] => userBlock
-  let packet := c.enc block sep ++ ids.flatten ++ c.aseal aeadKey (sep.drop 4) (hdr ++ payload)
+  let packet := c.enc (ssBlock userBlock eih) sep ++ ids.flatten ++ c.aseal aeadKey (sep.drop 4) (hdr ++ payload)
   .ok { buf := splice b packetStart.toNat packet, packetStart := packetStart, packetLen := packetLen,
         view := sep ++ (eih.map (·.2)).flatten ++ hdr ++ payload }
 
-/-- `ShadowPacketServerPacker.PackInPlace` -/
-def ssServerPack (c : Crypto) (block aeadKey : Bytes) (pol : Policy) (b : Bytes) (src : AddrPort)
-    (payloadStart payloadLen : Nat) (maxPacketLen : Int) (rand : Nat) (ts ssid spid csid : Bytes) : Outcome Packed :=
-  let alen := addrPortLen src
-  let hnp := sHeaderNoPaddingLen alen
-  let maxPad := sMaxPaddingLen maxPacketLen hnp payloadStart payloadLen 16
+/-- `ShadowPacketClientPacker.PackInPlace`. `eih` = (identity cipher key, PSK hash) per identity header. -/
+def ssClientPack (c : Crypto) (userBlock aeadKey : Bytes) (eih : List (Bytes × Bytes)) (maxPacketSize : Int)
+    (pol : Policy) (b : Bytes) (a : Addr) (payloadStart payloadLen : Nat) (rand : Nat) (ts sid pid : Bytes) :
+    Outcome Packed :=
+  if a.domTooLong then .panic else
+  let nonAEAD : Int := (UDPSeparateHeaderLength : Int) + (IdentityHeaderLength : Int) * eih.length
+  let hnp := cHeaderNoPaddingLen nonAEAD (addrLen a)
+  let maxPad := cMaxPaddingLen maxPacketSize hnp payloadStart payloadLen 16
   if maxPad < 0 then .err .tooBig else
-  let pad := choosePadding maxPad (shouldPad pol src.port) rand
+  ssClientPackWith c userBlock aeadKey eih b a payloadStart payloadLen
+    (choosePadding maxPad (shouldPad pol a.port) rand) ts sid pid
+
+/-- `ShadowPacketServerPacker.PackInPlace` after the padding length is chosen -/
+def ssServerPackWith (c : Crypto) (block aeadKey : Bytes) (b : Bytes) (src : AddrPort)
+    (payloadStart payloadLen : Nat) (pad : Int) (ts ssid spid csid : Bytes) : Outcome Packed :=
+  let alen := addrPortLen src
   let mhs := sMessageHeaderStart payloadStart alen pad
   if ¬ sliceOk b mhs payloadStart then .panic else
   let packetStart := sPacketStart mhs
@@ -308,6 +313,15 @@ def ssServerPack (c : Crypto) (block aeadKey : Bytes) (pol : Policy) (b : Bytes)
   let packet := c.enc block sep ++ c.aseal aeadKey (sep.drop 4) (hdr ++ payload)
   .ok { buf := splice b packetStart.toNat packet, packetStart := packetStart, packetLen := packetLen,
         view := sep ++ hdr ++ payload }
+
+/-- `ShadowPacketServerPacker.PackInPlace` -/
+def ssServerPack (c : Crypto) (block aeadKey : Bytes) (pol : Policy) (b : Bytes) (src : AddrPort)
+    (payloadStart payloadLen : Nat) (maxPacketLen : Int) (rand : Nat) (ts ssid spid csid : Bytes) : Outcome Packed :=
+  let hnp := sHeaderNoPaddingLen (addrPortLen src)
+  let maxPad := sMaxPaddingLen maxPacketLen hnp payloadStart payloadLen 16
+  if maxPad < 0 then .err .tooBig else
+  ssServerPackWith c block aeadKey b src payloadStart payloadLen
+    (choosePadding maxPad (shouldPad pol src.port) rand) ts ssid spid csid
 
 structure Unpacked (α : Type) where
   buf : Bytes
